@@ -296,7 +296,9 @@ def CreateRes (db : Db) (j s j' s' : JState) : Except CreateErr Checkpoint → E
 machine is back at a state related to the one the specification restores -/
 theorem create_rel {db : Db} {j s j' : JState} {caller a : Addr} {hs : Bool} {bal spec : Nat}
     {r : Except CreateErr Checkpoint} (h : JRel db j s)
-    (hcr : ∀ x, j.state a = some x → x.created = false) (hz : hs = false → ∀ k, db.storage a k = 0)
+    (hcr : ∀ x, j.state a = some x →
+      x.created = false ∨ (x.info.codeHash ≠ KECCAK_EMPTY ∨ x.info.nonce ≠ 0 ∨ hs = true))
+    (hz : hs = false → ∀ k, db.storage a k = 0)
     (h3 : a ≠ PRECOMPILE3) (hl : createAccountCheckpoint j caller a hs bal spec = some (j', r)) :
     ∃ s' r', createAccountCheckpoint s caller a hs bal spec = some (s', r') ∧ CreateRes db j s j' s' r r' := by
   rw [create_eq] at hl ⊢
@@ -311,7 +313,6 @@ theorem create_rel {db : Db} {j s j' : JState} {caller a : Addr} {hs : Bool} {ba
     simp only at hl ⊢
     have hxj : j.state a = some x := hx
     have hys : s.state a = some y := hy
-    have hcrx := hcr x hxj
     obtain ⟨e1, e2, e3, e4, e5, e6, e7, e8, e9⟩ := ar
     rw [← e2, ← e3]
     by_cases hcol : x.info.codeHash ≠ KECCAK_EMPTY ∨ x.info.nonce ≠ 0 ∨ hs = true
@@ -327,6 +328,7 @@ theorem create_rel {db : Db} {j s j' : JState} {caller a : Addr} {hs : Bool} {ba
       subst hl1; subst hl2
       exact ⟨sr, _, ⟨rfl, rfl⟩, rfl, h.of_back (a := a) (x := x) (.inl a1) a2 a3 a4 a5 a6 a7⟩
     · rw [if_neg hcol] at hl ⊢
+      have hcrx : x.created = false := (hcr x hxj).resolve_right hcol
       have hn : x.info.nonce = 0 := by
         by_cases h0 : x.info.nonce = 0
         · exact h0
@@ -378,4 +380,27 @@ theorem create_rel {db : Db} {j s j' : JState} {caller a : Addr} {hs : Bool} {ba
             have d0 : Dom s (checkpoint s).1 [] := Dom.of_state_eq rfl
             exact ((d0.trans d3).trans d5).perm (by simp)
 
-end Revm.Proofs.EvmRefine
+/-- a creation that collides leaves the journal state exactly as it was -/
+theorem create_collision {j j' : JState} {caller a : Addr} {hs : Bool} {bal spec : Nat}
+    {r : Except CreateErr Checkpoint} {x : Acct} (hx : j.state a = some x)
+    (hcol : x.info.codeHash ≠ KECCAK_EMPTY ∨ x.info.nonce ≠ 0 ∨ hs = true)
+    (hl : createAccountCheckpoint j caller a hs bal spec = some (j', r)) : r = .error .collision ∧ j' = j := by
+  rw [create_eq] at hl
+  simp only [bind, Option.bind] at hl
+  have hx' : (checkpoint j).1.state a = some x := hx
+  rw [hx'] at hl
+  simp only at hl
+  rw [if_pos hcol] at hl
+  obtain ⟨jr, hjr, a1, a2, a3, a4, a5, a6, a7⟩ := revert_back (j := j) (j3 := (checkpoint j).1) (j4 := (checkpoint j).1)
+    (l := []) rfl rfl rfl rfl
+  rw [hjr] at hl
+  simp only [Option.some.injEq, Prod.mk.injEq] at hl
+  obtain ⟨hl1, hl2⟩ := hl
+  subst hl1; subst hl2
+  refine ⟨rfl, ?_⟩
+  cases jr with | mk st tr lg dp jn sp pr =>
+  cases j with | mk st' tr' lg' dp' jn' sp' pr' =>
+  simp only at a1 a2 a3 a4 a5 a6 a7
+  simp only [checkpoint] at a1 a2 a3 a4
+  subst a1; subst a2; subst a3; subst a4; subst a5; subst a6; subst a7
+  rfl
